@@ -34,6 +34,14 @@ def ensure_workdir() -> str:
     return _WORKDIR
 
 
+def adopt_workdir() -> None:
+    """For short-lived fork-tree children that run one at a time and end with os._exit: keep using the scratch
+    directory inherited from the parent (a Session created in the child must not move to a new, empty one)."""
+    global _OWNER_PID
+    if _WORKDIR is not None:
+        _OWNER_PID = os.getpid()
+
+
 def on_fork() -> None:
     """Called by the pool in every forked worker: never share the parent's scratch directory."""
     if _WORKDIR is not None:
